@@ -22,15 +22,18 @@ class Sink(core.Str):
 
 class FailSink(Sink):
     """a writer whose k-th call fails, k chosen by the solver (C34); fail_at is a z3 term, calls counts write calls"""
-    def __init__(self, fail_at):
-        Sink.__init__(self, []); self.fail_at, self.calls, self.failed = fail_at, 0, False
+    def __init__(self, fail_at, zero=None):
+        # zero: z3 Bool - the failing call is a zero-length write (Ok(0) from write, WriteZero from write_all) instead of an Err
+        Sink.__init__(self, []); self.fail_at, self.calls, self.failed, self.zero, self.kind = fail_at, 0, False, zero, None
 
 
 def io_fails(sink, ctx):
     if not isinstance(sink, FailSink) or sink.failed: return False
     sink.calls += 1
     if ctx.branch(sink.fail_at == sink.calls):
-        sink.failed = True; return True
+        sink.failed = True
+        sink.kind = "zero" if (sink.zero is not None and ctx.branch(sink.zero)) else "err"
+        return True
     return False
 
 
@@ -250,6 +253,13 @@ def contracts_(c, args, ctx):
         bs = to_bytes(args[1], n, m.group(1) == "BigEndian")
         for k in range(n): view.set(k, bs[k])
         return None
+    if re.search(r"as (std::io::)?Write>::write$", c):       # a single write call: all bytes are taken, or the call fails / takes nothing
+        sink = d(args[0]); src = d(args[1])
+        data = list(src) if isinstance(src, (bytes, bytearray)) else (src.items() if isinstance(src, View) else (src.b if isinstance(src, core.Str) else (src.items if isinstance(src, core.VecV) else list(src.f))))
+        if io_fails(sink, ctx):
+            return core.Enum("Ok", [0]) if sink.kind == "zero" else core.Enum("Err", [IO_ERR])
+        sink.b.extend([norm(x) for x in data])
+        return core.Enum("Ok", [len(data)])
     if re.search(r"as (std::io::)?Write>::write_all$", c) or re.match(r"Vec::<u8>::extend_from_slice$", c):
         src = d(args[1])
         data = list(src) if isinstance(src, (bytes, bytearray)) else (src.items() if isinstance(src, View) else (src.b if isinstance(src, core.Str) else (src.items if isinstance(src, core.VecV) else list(src.f))))
